@@ -114,11 +114,21 @@ SpecialCases == {[fn |-> "dilog", cls |-> c, win |-> NoWin, hi |-> 0, zero |-> "
           \cup {[fn |-> "cdilog", cls |-> c, win |-> NoWin, hi |-> 0, zero |-> "limit"] : c \in CDilogClasses}
 C01Cases == OneVarCases \cup SpecialCases
 
-\* ---- Part 3 (C02): argument classes of the many-variable functions
-TwoVarFunctions == {"Fa", "Fb", "FPZ", "FSZ", "FCWl"}
-PairClasses == {"generic", "equal", "near12", "near9", "near6", "near4", "near3", "near2", "near1", "bothOne", "xOne", "yOne",
-                "xZero", "yZero", "ratioBig", "ratioSmall", "bothQuarter"}
-ThreeVarFunctions == {"Iabc", "Phi", "lambda_2"}
-TripleClasses == {"generic", "allEqual", "twoEqual12", "twoEqual13", "twoEqual23", "oneIsOne", "kallenZero", "kallenNeg",
-                  "kallenPos", "zeroArg", "nearEqual6", "nearEqual3"}
+\* ---- Part 3 (C02): argument classes of the many-variable functions ------------------------------------------
+\* Case analysis transcribed from gm2_ffunctions.cpp:381-610 (sorting, zero, all-equal, pairwise-equal within
+\* 1e-5 / 1e-4, an argument equal to 1 within 1e-4 / 1e-2), :62-222 (Phi: sign of lambda^2, inversion, small u, v),
+\* :809-957 (difference quotients: equal within 1e-8, 1/4, large).  nearK = relative distance 10^-K.
+NearClasses == {"near12", "near10", "near8", "near6", "near5", "near4", "near3", "near2", "near1"}
+PairClassesFab == {"generic", "equal", "bothOne", "winOneIn", "winOneEdge", "xOne", "xNearOne", "bothSmall", "smallApart", "hier", "zeroLarge"}
+                  \cup NearClasses
+QuotClasses == {"generic", "equal", "equalQuarter", "equalLarge", "equalSmall", "xZero", "apart3", "crossQuarter", "large", "small"}
+TripleClassesI == {"generic", "allEqual", "twoEqualLo", "twoEqualHi", "allNear", "oneIsMax", "oneZero", "twoZero", "allZero", "hier"} \cup NearClasses
+TripleClassesPhi == {"generic", "kallenPos", "kallenNeg", "kallenZero", "pairEqual", "pairNear", "uOne", "allEqual", "smallUV", "hier",
+                     "kallenNear12", "kallenNear10", "kallenNear8", "kallenNear6", "kallenNear4", "kallenNear3"}
+CSClasses == {"generic", "physical", "kallenNear", "xdZero"}
+FCWClasses == {"physical", "equalScales", "generic"}
+Cls(fs, cs) == {[fn |-> f, cls |-> c] : f \in fs, c \in cs}
+C02Cases == Cls({"Fa", "Fb"}, PairClassesFab) \cup Cls({"FPZ", "FSZ", "FCWl"}, QuotClasses) \cup Cls({"Iabc"}, TripleClassesI)
+            \cup Cls({"Phi", "lambda_2", "Phi_over_lambda_2"}, TripleClassesPhi) \cup Cls({"f_CSd", "f_CSu"}, CSClasses \ {"xdZero"}) \cup Cls({"f_CSd"}, {"xdZero"})   \* only f_CSd documents xd = 0
+            \cup Cls({"FCWu", "FCWd"}, FCWClasses)
 =============================================================================
